@@ -21,33 +21,49 @@ ID = 'C18'
 BUDGET = {'quick': 640, 'thorough': 9000}          # generated programs
 RULE = ('programs from the typed generator plus 1-2 ordered predicates (facts / single '
         'injectible-shaped rule / several rules / disjunction / distinct+aggregation / '
-        'functional / constant rows; key list = a permutation or a minimal total prefix of '
-        'the columns with asc/desc spelled "c", "c asc", "c desc", "c DESC", "c","DESC"; K '
-        'from 0 to n+2 or absent; @OrderBy/@Limit annotations before or after the rules or '
-        'order_by()/limit() denotations on one rule) and 1-3 consumers per program reading '
-        'the ordered predicate by join, self-join, predicate-level aggregation, negation, '
-        'aggregating expression, functional call, through an injectible pass-through, or '
-        'as a second ordered+limited predicate, under {none,@With,@NoWith,@NoInject,'
-        '@Ground,@NoInject+@NoWith,@NoInject+@With} on every predicate. Every ordered '
-        'predicate (rows as a list) and every predicate depending on one (rows as a '
-        'multiset) is run on SQLite and compared with the reference evaluator (sort by '
-        'the keys, take the first K). Non-trivial = final target: 0 < K < n and the '
-        'requested order differs from the evaluation order of the rows; consumer: removing '
-        'the limit(s) changes the consumer\'s reference result. Distinct by (program '
-        'text, predicate).')
+        'functional / constant rows / reading another ordered predicate; key list = a '
+        'permutation or a minimal total prefix of the columns, or none (limit only), with '
+        'asc/desc spelled "c", "c asc", "c desc", "c DESC", "c","DESC"; K from 0 to n+2 or '
+        'absent; @OrderBy/@Limit annotations before or after the rules or order_by()/'
+        'limit() denotations on one rule; 25 % of the programs with type checking on so '
+        'that CheckOrderByClause runs) and 1-3 consumers per program reading the ordered '
+        'predicate by join, self-join, predicate-level aggregation, negation, aggregating '
+        'expression, functional call, or through an injectible pass-through, under {none,'
+        '@With,@NoWith,@NoInject,@Ground,@NoInject+@NoWith,@NoInject+@With} on every '
+        'predicate. Every ordered predicate (rows as a LIST when it has keys) and every '
+        'predicate depending on one (rows as a multiset) is run on SQLite and compared '
+        'with the reference evaluator (sort by the keys, take the first K; for a limit '
+        'without keys over non-identical rows: some choice of K rows must explain the '
+        'result). Non-trivial = final target: keys, 0 < K < n and the requested order '
+        'differs from the evaluation order of the rows; consumer: removing the limit(s) '
+        'changes the consumer\'s reference result. Distinct by (program text, predicate).')
 ASSUMPTIONS = ['reference evaluator lv/ref.py is the oracle (Evaluator.order_limit)',
                'CPython sqlite3; key columns are null-free ints or lowercase-ASCII strings '
                '(BINARY collation = code point order)',
                'answers are asserted only when unique: keys are total over the rows (tied '
-               'rows identical) or the limit does not truncate; otherwise inconclusive',
+               'rows identical) or the limit does not truncate; a limit without keys is '
+               'checked existentially (<= 300 candidate truncations); otherwise inconclusive',
                '@Ground uses the in-memory logica_test database SQLite attaches by default',
                'only the documented/used key spellings "col", "col asc|desc|DESC" and the '
-               'separate "DESC" token (used by the repository\'s own examples)']
+               'separate "DESC" token (used by the repository\'s own examples)',
+               'under type checking any diagnostic other than CheckOrderByClause\'s is '
+               'counted inconclusive (type inference is C05)',
+               'st.randoms(use_true_random=True): one Hypothesis-drawn 64-bit seed per '
+               'program (see strategy())']
 
 # Known finding D5 (`@Limit(P, 0)` is ignored: LimitClause tests `if limit:`): the generator
-# replaces K = 0 by K = 1 and counts the exclusion; VERIF_C18_NO_EXCLUDE=1 re-derives it.
+# replaces K = 0 by a K in 1..n-1 and counts the exclusion; VERIF_C18_NO_EXCLUDE=1 re-derives it.
 EXCLUDE_D5 = not os.environ.get('VERIF_C18_NO_EXCLUDE')
 D5_QUIRK = 'D5_limit_zero_ignored'
+# Finding D12 (type-checking engines only): CheckOrderByClause accepts the separate tokens
+# "asc"/"desc" (lowercase) while OrderByClause understands only the separate token "DESC"
+# (uppercase): `@OrderBy(P, "col0", "DESC")`, the spelling of the repository's own
+# examples, is refused with "ordered by columns DESC which it lacks" as soon as type
+# checking is on.  With the flag set, type-checked programs spell it "col0 DESC".
+EXCLUDE_D12 = not os.environ.get('VERIF_C18_NO_EXCLUDE_D12')
+D12_QUIRK = 'D12_separate_DESC_token_refused_by_type_check'
+TYPECHECK_PCT = 25
+ENGINE_TC = '@Engine("sqlite", type_checking: true);'
 
 OPTS = dict(p_colnames=0.0, p_composite_col=0.0, p_null_fact=0.0, p_neg=0.15, p_agg=0.2,
             p_distinct=0.2, p_or=0.15, p_fcall=0.08, p_two_rules=0.2, p_value=0.3,
@@ -137,7 +153,8 @@ def render(prog):
                 top.append('%s(%s);' % (a, name))
     p['rules'] = rules
     p['ann'] = list(prog.get('ann', [])) + top
-    text = model.print_program(p)
+    text = model.print_program(p, ENGINE_TC) if prog.get('typecheck') else \
+        model.print_program(p)
     if bottom:
         text += '\n'.join(bottom) + '\n'
     return text
@@ -273,7 +290,7 @@ def deps_closure(rules, name):
     return seen
 
 
-def make_ordered(g, name, ospec, col, reads=None):
+def make_ordered(g, name, ospec, col, reads=None, typecheck=False):
     """Create (or pick) the ordered predicate and its spec.  Returns name or None."""
     rng = g.rng
     sem = semantic({'ospec': ospec})
@@ -359,6 +376,11 @@ def make_ordered(g, name, ospec, col, reads=None):
     else:
         col.label('keys:all_columns')
     keys = [[fields[i], rng.choice(STYLES)] for i in keys_idx]
+    if typecheck and EXCLUDE_D12:
+        for kk in keys:
+            if kk[1] == 'sepDESC':
+                kk[1] = 'DESC'
+                col.exclude('D12_separate_DESC_token_under_type_checking')
     # ---- K
     r = rng.randint(0, 99) / 100.0
     if n >= 2 and r < 0.68:
@@ -398,7 +420,8 @@ def gen_case(rng, col):
     for i in range(rng.choice((0, 0, 1, 2))):
         g.idb_nonempty('I%d' % i)
     ospec, shapes, ckind = {}, {}, {}
-    P, ss = make_ordered(g, 'P0', ospec, col)
+    typecheck = pct(rng, TYPECHECK_PCT)
+    P, ss = make_ordered(g, 'P0', ospec, col, typecheck=typecheck)
     if P is None:
         return None
     ospec[P], shapes[P] = ss
@@ -424,7 +447,7 @@ def gen_case(rng, col):
             ckind['C%d' % i] = kind
         if i == 0 and pct(rng, 30):
             # a second ordered+limited predicate reading the first one
-            P1, ss = make_ordered(g, 'P1', ospec, col, reads=P)
+            P1, ss = make_ordered(g, 'P1', ospec, col, reads=P, typecheck=typecheck)
             if P1 is not None:
                 ospec[P1], shapes[P1] = ss
                 ordered.append(P1)
@@ -447,6 +470,7 @@ def gen_case(rng, col):
     prog['plan'] = plan
     prog['shapes'] = shapes
     prog['ckind'] = ckind
+    prog['typecheck'] = typecheck
     return prog
 
 
@@ -596,6 +620,30 @@ def check_pred(prog, pred, text=None, rules=None):
     if st == 'inconclusive':
         return st, bucket, '', info
     if st == 'fail':
+        if bucket.startswith('rejected_valid:') and 'which it lacks' in detail:
+            # CheckOrderByClause: the one diagnostic of type checking that is about C18
+            bucket = 'rejected_valid:order_by_column_check'
+            if any(style == 'sepDESC' for s in prog['ospec'].values()
+                   for f, style in s['keys']) and 'DESC' in detail.split('which it lacks')[0]:
+                bucket += ':quirk:' + D12_QUIRK
+        elif prog.get('typecheck') and not bucket.startswith('sqlite_error:'):
+            # anything else the type checker says about a generated program is C05's
+            # business (the same program without type checking is the other 75 %)
+            return 'inconclusive', 'type_checker:' + bucket.split(':')[0], '', info
+        elif prog.get('ospec'):
+            # differential attribution: a refusal / crash that is identical when every
+            # @OrderBy/@Limit is replaced by @NoInject is not about ordering (C01's
+            # business, e.g. the circular-`in` diagnostic D11); never hides a failure
+            # that the annotations cause
+            plan0 = {k: list(v) for k, v in prog.get('plan', {}).items()}
+            for q in prog['ospec']:
+                if '@NoInject' not in plan0.get(q, ()):
+                    plan0[q] = list(plan0.get(q, ())) + ['@NoInject']   # still a table
+            st0, bucket0, _, _ = actual(render(dict(prog, ospec={}, plan=plan0)), pred,
+                                        None)
+            if st0 == 'fail' and bucket0 == bucket:
+                return 'inconclusive', 'fails_without_order_and_limit_too:' + \
+                    bucket.split(':')[0], '', info
         return st, branch + ':' + bucket, detail + tail, info
     info['sql'] = detail
     hdr, rows = res
@@ -680,6 +728,7 @@ def case_labels(prog, pred, info):
                     labels.append('consumer_of_limit_only_truncated_injectible_shaped')
     if len(srcs) > 1:
         labels.append('nested_ordered')
+    labels.append('type_checking:' + ('on' if prog.get('typecheck') else 'off'))
     if info.get('loose'):
         labels.append('oracle:any_k_rows(%s)' % ('1' if info['n_candidates'] == 1 else
                                                  '2-9' if info['n_candidates'] < 10 else
@@ -764,6 +813,20 @@ def shard(ctx, col):
                 col.case((text, pred), False, ['failed'])
                 col.fail(bucket, {'prog': model.prog_to_json(prog), 'pred': pred}, detail)
     core.hyp_run(one, strategy(), ctx.budget, ctx.hyp_seed)
+
+
+def evidence_extra(col):
+    lab = col.labels
+    return {'summary': {
+        'final_targets': lab.get('branch:final', 0),
+        'consumer_targets': lab.get('branch:consumer', 0),
+        'nontrivial_final': lab.get('nontrivial:final', 0),
+        'nontrivial_consumer': lab.get('nontrivial:consumer', 0),
+        'consumers_of_injectible_shaped_ordered_predicate':
+            lab.get('consumer_of_injectible_shaped', 0),
+        'consumers_where_only_the_limit_blocks_injection':
+            lab.get('consumer_of_limit_only_truncated_injectible_shaped', 0),
+        'type_checked_targets': lab.get('type_checking:on', 0)}}
 
 
 def check_case(case):
